@@ -45,14 +45,19 @@ Anything that is not understood terminates the translator with a non-zero exit s
 Cross-checks (default; skipped with a note if llvm-mc / llvm-objdump are not installed):
   * AArch64: each file is assembled with `llvm-mc --triple=aarch64 -filetype=obj` and disassembled with
     `llvm-objdump -d -M no-aliases`; the instruction sequence must be, instruction for instruction,
-    the one this translator produced (operation, operands, addressing mode, branch target).
+    the one this translator produced (operation, operands, addressing mode, branch target), in two
+    ways: (a) the disassembly text, read by the same operand parser, gives the same instruction, and
+    (b) the 32-bit word llvm-mc emitted equals the encoding `a64_encode` computes from the decoded
+    instruction (written from the Arm ARM's encoding diagrams, independent of the text parser).
   * ARMv6-M: llvm-mc cannot assemble the files as written (its ARM parser rejects divided-syntax
     `adc r3, r3, r5`, `lsr r4, r4, #16`, …: "no flag-preserving variant of this instruction available" /
     "instruction requires: thumb2"), and no GNU assembler for ARM is installed.  Therefore only an
     ENCODABILITY check is made: the translator prints the instructions it decoded in unified syntax,
     assembles THAT with `llvm-mc --triple=thumbv6m-none-eabi`, and the disassembly must give back the
-    same instructions, each a 16-bit encoding (`bl`: 32-bit).  This shows that every decoded form exists
-    in ARMv6-M with these operands; it does not check the divided-syntax reading of the source text.
+    same instructions, each a 16-bit encoding (`bl`: 32-bit) equal to what `t_encode` computes from the
+    decoded instruction (ARMv6-M ARM encoding tables).  This shows that every decoded form exists in
+    ARMv6-M with these operands and that the model's operand roles are those of the encoding; it does
+    not check the divided-syntax reading of the source text (documented above, from GNU as's source).
 
 The outputs are deterministic and rewritten only if their content changes.
 """
